@@ -27,7 +27,7 @@ TECHNIQUE = 'runtime monitoring: logged tick times vs arithmetic model + activat
 ASSUMPTIONS = ['dyadic periods and durations (exact float arithmetic)']
 REQUIRED_STATS = ['ticks_checked', 'exceeded_checked', 'zero_period_ticks']
 
-PERIODS = [0, 0, 0.125, 1, 1, 5, 20]
+PERIODS = [0, 0, 0.125, 1, 1, 5, 20, 0.1, 0.1, 0.3, 0.7]
 
 
 def n_cases(tier):
